@@ -154,10 +154,21 @@ pub fn run(ctx: &Ctx) -> Outcome {
         let dd = cfg.block_mode(mode, Dir::Dec).unwrap();
         let mbs = de.mbs;
         let lmax = tier.pick(2 * mbs + 1, 3 * mbs + 2).max(3);
+        // plus messages long enough for the parallel path inside the padded calls, and past 8 / 16 blocks
+        let mut plens = byte_lengths(mbs, lmax);
+        let par = par_of(cfg);
+        for n in [par + 1, 2 * par + 1, 9, 17] {
+            if n * mbs <= 17 * 32 {
+                plens.extend([n * mbs, n * mbs + 1, n * mbs + mbs - 1]);
+            }
+        }
+        plens.sort();
+        plens.dedup();
+        let lmax = *plens.last().unwrap();
         for key in keys(seed, cfg.key_len).iter().take(1) {
             let iv = pattern(seed, 0x1717, de.iv_len);
             for (dn, data) in data_variants(seed, 0xC12, lmax) {
-                for l in byte_lengths(mbs, lmax) {
+                for &l in &plens {
                     let m = &data[..l];
                     for pad in PADS {
                         if rf::pad(pad, mbs, m).is_none() {
